@@ -13,6 +13,7 @@ import Pumpkin.Model.RecMin
 import Pumpkin.Model.PropagationCompile
 import Pumpkin.Model.Search
 import Pumpkin.Model.Narrow
+import Pumpkin.Check.Derive
 
 namespace Pumpkin.C02
 
@@ -173,5 +174,30 @@ example : Pg.search [.linLe [⟨1, 0, 0⟩, ⟨1, 0, 1⟩] 1, .linNe [⟨1, 0, 0
 example : Pg.search [.linLe [⟨1, 0, 0⟩, ⟨1, 0, 1⟩] 1, .linNe [⟨1, 0, 0⟩, ⟨-1, 0, 1⟩] 0, .linLe [⟨-1, 0, 0⟩, ⟨-1, 0, 1⟩] (-2)]
     (fun (s : List Atom) _ => match s with | p :: r => .decide p r | [] => .done) 5 [Atom.le 0 0] [[0, 1], [0, 1]] []
     = .unsat := by decide
+
+/-! ### learned nogoods are consequences (the state `learned nogood database` of this property)
+
+Conflict analysis is not modelled step by step; instead every learned nogood of the recorded real
+solves comes with the implications it was resolved from (the conflict, every reason handed to the
+analysis — explicit, lazy or implicit —, the root facts, earlier nogoods) and must be accepted by the
+verified derivation check `Derive.derivable` (domain-aware unit propagation). -/
+
+/-- **An accepted learned nogood is a consequence of what it was derived from**: under any assignment
+within the declared domains which respects every recorded implication, the predicates of the nogood
+do not all hold. Since every implication is judged on its own (an explicit reason against the
+constraint of its propagator — C17 —, an implicit one against `Model/ImplicitReason`, an earlier
+nogood by this very theorem, a reason of the nogood propagator by the stored nogood it comes from),
+each learned nogood is implied by the model and the clauses added so far, whatever heuristics,
+restarts, minimisation and database clean-ups the solver went through. -/
+theorem learned_nogood_is_consequence (m : Model) (g : List Derive.Impl) (ng : List Atom)
+    (h : Derive.derivable m.doms g ng = true) (a : List Int) (ha : m.sat a = true)
+    (hg : ∀ c ∈ g, c.respected a) : ¬ ∀ p ∈ ng, p.holds a = true := by
+  simp only [Model.sat, Bool.and_eq_true] at ha
+  exact Derive.derivable_sound m.doms g ng h a ha.1 hg
+
+-- non-vacuous: x ≥ 2 → y ≤ 0, y ≤ 0 → z ≠ 1, and the conflict [z ≥ 1] ∧ [x ≥ 1] over 0..2 / 0..1 / 0..1
+example : Derive.derivable [[0, 1, 2], [0, 1], [0, 1]]
+    [([Atom.ge 0 2], some (Atom.le 1 0)), ([Atom.le 1 0], some (Atom.ne 2 1)), ([Atom.ge 2 1, Atom.ge 0 1], none)]
+    [Atom.ge 0 2, Atom.eq 2 1] = true := by decide
 
 end Pumpkin.C02
